@@ -354,6 +354,8 @@ def gen_method_unit(sc, sidecar_path, repo):
         try:
             body, hdr = rxprep.find_fn(toks, m['fn'], sc['impl'])
         except (AnchorLost, LexError) as e:
+            if m.get('optional'):
+                continue      # a private helper the other methods may or may not use; without it they are checked on their own
             raise UnitError('anchor', str(e))
         start, end = body.start, body.end
         reps = []
@@ -374,6 +376,9 @@ def gen_method_unit(sc, sidecar_path, repo):
                         reps.append((t.start, ts[j9 - 1].end, '.call_in(world)')); i = j9; continue
                 if t.kind == 'group':
                     scan(t.kids)
+                elif t.is_p('|') and i > 0 and (ts[i - 1].kind in ('ident', 'group', 'lit') and not ts[i - 1].is_id('move') and not ts[i - 1].is_id('return')
+                                                or ts[i - 1].is_p('|') and i > 1 and ts[i - 2].kind in ('ident', 'group', 'lit')):
+                    pass    # binary `|` / `||` between two expressions, not a closure head
                 elif t.is_p('|') or t.is_id('move'):
                     raise UnitError('not_extractable', '%s::%s contains a closure' % (sc['impl'], m['fn']))
                 elif t.is_id('self'):
@@ -707,7 +712,7 @@ def gen_unit(sidecar_path: str, repo: str) -> dict:
         definite['wiring_guarded_by_is_subscribed'] = (
             bool(sk.guarded_by_is_subscribed),
             'the operator emits before it wires its source (prologue %r) but the wiring is not guarded by `if %s.is_subscribed()`: a subscriber that ended during the prologue still causes the source to be subscribed' % (sk.prologue, sk.create_param),
-            ['C06'])
+            sc.get('guard_fact_props', ['C06']))
     return {'op': op, 'text': text, 'twins': twin_text, 'facts': facts, 'skeleton_problems': sk_problems, 'definite_facts': definite,
             'outer_cells': outer, 'extracted': extracted_meta, 'props': sc.get('props', []),
             'known_fail': sc.get('known_fail', {}),
